@@ -122,3 +122,43 @@ def ftot(f):
 
 def zero_like(x):
     return x * 0
+
+
+def make_step(mk, M=1, kind='full', sweeper=('pySDC/implementations/sweeper_classes/generic_implicit.py', 'generic_implicit'),
+              level_params=None, step_params=None, sweeper_params=None, nlevels=1, name='S', symbolic_level=True,
+              space_transfer=None, Ms=None, base_transfer_params=None):
+    """a real Step (real Levels, real sweepers) over the ghost problem; scalar leaves from the maker"""
+    from pySDC.core.step import Step
+
+    if mk.mode == 'sym':
+        problem_class = AbstractProblem
+    else:
+        from vc.native import ConcreteLinearProblem as problem_class
+    Ms = Ms or [M] * nlevels
+    sp = dict(num_nodes=Ms if nlevels > 1 else Ms[0], quad_type='RADAU-RIGHT')
+    sp.update(sweeper_params or {})
+    lp = dict(dt=1.0)
+    lp.update(level_params or {})
+    d = dict(problem_class=problem_class, problem_params=dict(kind=kind, name=[f'{name}.P{l}' for l in range(nlevels)] if nlevels > 1 else f'{name}.P0'),
+             sweeper_class=cls_of(*sweeper), sweeper_params=sp, level_params=lp, step_params=dict(step_params or {}))
+    if nlevels > 1:
+        d['space_transfer_class'] = space_transfer
+        if base_transfer_params:
+            d['base_transfer_params'] = base_transfer_params
+    S = Step(d)
+    if symbolic_level:
+        for l, L in enumerate(S.levels):
+            n = f'{name}.L{l}'
+            Ml = L.sweep.coll.num_nodes
+            L.params.dt = mk.real(f'{name}.dt') if l == 0 else S.levels[0].params.dt
+            if l == 0:
+                mk.assume(L.params.dt > 0, 'dt>0')
+            L.status.time = mk.real(f'{name}.time') if l == 0 else S.levels[0].status.time
+            L.sweep.coll.Qmat = mk.matrix(f'{n}.Q', Ml + 1, Ml + 1, lambda i, j: i >= 1 and j >= 1)
+            L.sweep.coll.weights = mk.vector(f'{n}.w', Ml)
+            L.sweep.coll.nodes = mk.vector(f'{n}.c', Ml)
+            if hasattr(L.sweep, 'QI'):
+                L.sweep.QI = mk.matrix(f'{n}.QI', Ml + 1, Ml + 1, lower)
+            if hasattr(L.sweep, 'QE'):
+                L.sweep.QE = mk.matrix(f'{n}.QE', Ml + 1, Ml + 1, strictly_lower0)
+    return S
